@@ -12,7 +12,7 @@ COMMON_ASSUMPTIONS = [
     "correspondence is sampled: a code path no generator reaches is not tied to the model",
 ]
 
-TRACE_ALL = "planted,linear,prio,contra,malformed,caps"
+TRACE_ALL = "planted,linear,prio,contra,malformed,caps,collapsed"
 
 PROPS = {
     "C12": {
@@ -33,7 +33,7 @@ PROPS = {
         "modules": ["Ezpz.Proofs.Lint", "Ezpz.Real.Lint", "Ezpz.Proofs.Warnings"],
         "suites": [
             {"suite": "kernels", "quick": (150,), "thorough": (3000,)},
-            {"suite": "trace", "quick": (400, "planted,prio,contra,malformed,conflict"), "thorough": (6000, "planted,prio,contra,malformed,conflict,linear,caps")},
+            {"suite": "trace", "quick": (400, "planted,prio,contra,malformed,conflict,collapsed,pinned"), "thorough": (6000, "planted,prio,contra,malformed,conflict,linear,caps,collapsed,pinned")},
         ],
         "oracles": [
             {"bin": "oracle_c15", "quick": ("{seed}", "2000"), "thorough": ("{seed}", "60000")},
@@ -61,7 +61,7 @@ PROPS = {
     "C17": {
         "modules": ["Ezpz.Proofs.Assembly", "Ezpz.Real.GaussNewton2", "Ezpz.Real.StopTests", "Ezpz.Properties.C06"],
         "suites": [
-            {"suite": "trace", "quick": (400, "planted,linear,prio,contra"), "thorough": (6000, "planted,linear,prio,contra,caps,conflict")},
+            {"suite": "trace", "quick": (400, "planted,linear,prio,contra,pinned"), "thorough": (6000, "planted,linear,prio,contra,caps,conflict,pinned")},
         ],
         "oracles": [
             {"bin": "oracle_c17", "quick": ("{seed}", "300", "12"), "thorough": ("{seed}", "3000", "200")},
@@ -141,7 +141,7 @@ PROPS = {
         "modules": ["Ezpz.Properties.C01"],
         "suites": [
             {"suite": "kernels", "quick": (150,), "thorough": (3000,)},
-            {"suite": "trace", "quick": (300, "planted,contra,prio,linear,conflict,disparity"), "thorough": (5000, "planted,contra,prio,linear,caps,malformed,conflict,disparity")},
+            {"suite": "trace", "quick": (300, "planted,contra,prio,linear,conflict,disparity,collapsed,pinned"), "thorough": (5000, "planted,contra,prio,linear,caps,malformed,conflict,disparity,collapsed,pinned")},
         ],
         "oracles": [
             {"bin": "oracle_c01", "quick": ("{seed}", "600"), "thorough": ("{seed}", "20000")},
@@ -154,7 +154,7 @@ PROPS = {
         "modules": ["Ezpz.Properties.C06"],
         "suites": [
             {"suite": "kernels", "quick": (150,), "thorough": (3000,)},
-            {"suite": "trace", "quick": (400, "malformed,planted,contra,caps"), "thorough": (8000, "malformed,planted,contra,caps,prio,linear")},
+            {"suite": "trace", "quick": (400, "malformed,planted,contra,caps,collapsed"), "thorough": (8000, "malformed,planted,contra,caps,prio,linear,collapsed")},
         ],
         "oracles": [
             {"bin": "oracle_c06", "quick": ("{seed}", "3000"), "thorough": ("{seed}", "100000")},
@@ -165,7 +165,7 @@ PROPS = {
     "C07": {
         "modules": ["Ezpz.Properties.C07"],
         "suites": [
-            {"suite": "trace", "quick": (400, "prio,contra,planted,malformed,conflict"), "thorough": (6000, "prio,contra,planted,malformed,linear,caps,conflict")},
+            {"suite": "trace", "quick": (400, "prio,contra,planted,malformed,conflict,collapsed,pinned"), "thorough": (6000, "prio,contra,planted,malformed,linear,caps,conflict,collapsed,pinned")},
         ],
         "oracles": [
             {"bin": "oracle_c07", "quick": ("{seed}", "1000"), "thorough": ("{seed}", "30000")},
@@ -176,7 +176,7 @@ PROPS = {
     "C10": {
         "modules": ["Ezpz.Properties.C10"],
         "suites": [
-            {"suite": "trace", "quick": (300, "planted,prio,contra,linear"), "thorough": (5000, "planted,prio,contra,linear,caps,malformed")},
+            {"suite": "trace", "quick": (300, "planted,prio,contra,linear,collapsed,pinned"), "thorough": (5000, "planted,prio,contra,linear,caps,malformed,collapsed,pinned")},
         ],
         "oracles": [
             {"bin": "oracle_c10", "quick": ("{seed}", "800"), "thorough": ("{seed}", "20000"), "digest_twice": True},
